@@ -13,6 +13,7 @@ RESIZE_ANY = ("heapless::vec::Vec::<T, N>::resize_default", "heapless::vec::Vec:
 TRUNCATE = "heapless::vec::Vec::<T, N>::truncate"
 CAPACITY = "heapless::vec::Vec::<T, N>::capacity"
 SPLIT = "core::slice::<impl [T]>::split_first_mut"
+SPLIT_AT = "core::slice::<impl [T]>::split_at_mut"
 CBOR_SER = ("cbor_smol::cbor_serialize", "cbor_smol::ser::cbor_serialize")
 OK = "core::result::Result::Ok"
 LEN = "core::slice::<impl [T]>::len"
@@ -41,6 +42,26 @@ def rooted_in_buffer(t):
         else:
             return False
     return False
+
+
+def is_grow(m, e):
+    """the buffer is resized to its full capacity: resize_default(capacity()) / resize(capacity(), 0) / the same with the
+    Vec's const capacity parameter N"""
+    if e.callee not in RESIZE_ANY or len(e.args) < 2 or e.args[0] != BUF:
+        return False
+    n = e.args[1]
+    if n[0] == "call" and n[1] == CAPACITY and n[2] == (BUF,):
+        ok = True
+    else:
+        cap = None
+        for p in m.fn.get("params", []):
+            if p.get("k") == "bind" and p.get("name") == "buffer":
+                mm = __import__("re").search(r"Vec<u8, (\w+)>", p.get("ty") or "")
+                cap = mm.group(1) if mm else None
+        ok = cap is not None and n[0] in ("path", "const") and n[1] == m.fn["path"] + "::" + cap
+    if ok and e.callee.endswith("::resize"):
+        ok = len(e.args) == 3 and e.args[2] == ("lit", 0)
+    return ok
 
 
 class PathView:
@@ -85,13 +106,16 @@ def build(F):
         v.p = p
         v.effects = list(p.effects)
         v.variant = (m.sym.lookup(p, ME) or "?").split("::")[-1]
-        v.split = [e for e in p.effects if e.callee == SPLIT and e.args and e.args[0] == BUF]
+        # the status byte and the room behind it: `buffer.split_first_mut().unwrap()` or `buffer.split_at_mut(1)`
+        v.split = [e for e in p.effects if (e.callee == SPLIT and e.args and e.args[0] == BUF) or (e.callee == SPLIT_AT and tuple(e.args) == (BUF, ("lit", 1)))]
         for e in v.split:
             split_terms.add(e.term)
         v.status_place = v.data_place = None
-        if len(v.split) == 1:
+        if len(v.split) == 1 and v.split[0].callee == SPLIT:
             some = m.sym.proj(v.split[0].term, S.SOME, 0)
             v.status_place, v.data_place = m.sym.tproj(some, 0), m.sym.tproj(some, 1)
+        elif len(v.split) == 1:
+            v.status_place, v.data_place = ("index", m.sym.tproj(v.split[0].term, 0), ("lit", 0)), m.sym.tproj(v.split[0].term, 1)
         v.encoders = [e for e in p.effects if e.callee in CBOR_SER]
         v.enc = v.encoders[0] if len(v.encoders) == 1 else None
         v.enc_known = m.sym.lookup(p, v.enc.term) if v.enc is not None else None
@@ -102,7 +126,7 @@ def build(F):
         v.kind = classify(m, v)
         m.views.append(v)
     if len(split_terms) != 1:
-        return None, [("split", "the status byte and the body are no longer obtained from one `buffer.split_first_mut()`")]
+        return None, [("split", "the status byte and the body are no longer obtained from one `buffer.split_first_mut()` / `buffer.split_at_mut(1)`")]
     m.paths = [v for v in m.views if not v.panics]
     m.panic_paths = [v for v in m.views if v.panics]
     return m, problems
